@@ -1,7 +1,175 @@
-"""stub (replaced below)"""
-C03_VFILES = []
-C12_VFILES = []
-MODELLED = []
-def run_tie(ctx, exe, prop):
-    return []
-MODELLED_C12 = []
+"""Model / C tie for the memory models (properties C03 and C12).
+
+The same op scripts run on the extracted models (ocaml/drv_mem.ml over coq/Mem/*.v) and on the
+white-box C harness harness/mem_wb.c (static list functions of vnaproperty.c, the parameter-slot
+allocator, vnacal_new_add_mapped_matrix_m without a port map) under ASan/UBSan with the allocation
+interposer.  After every op the outcome class (Done / errno class) and the number of live blocks of
+the object are compared.  For C12 every op additionally runs with request number k+1 failing.
+"""
+import os
+
+import vplib
+import mem_gen
+
+C03_VFILES = ["Mem/Alloc.v", "Mem/AllocProofs.v", "Mem/PropList.v", "Mem/Owned.v", "Mem/PropListProofs.v",
+              "Mem/ParamSlots.v", "Mem/ParamProofs.v", "Mem/AddArrays.v", "Mem/AddArraysProofs.v", "Properties_C03.v"]
+C12_VFILES = ["Mem/Alloc.v", "Mem/AllocProofs.v", "Mem/PropList.v", "Mem/Owned.v", "Mem/PropListProofs.v",
+              "Mem/ParamSlots.v", "Mem/ParamProofs.v", "Properties_C12.v"]
+
+MODELLED = [
+    "vnaproperty.c: list_check_allocation, list_alloc, list_subtree, list_insert, list_append, list_delete, scalar_alloc, "
+    "vnaproperty_free (of a list of scalars), tail of vnaproperty_vset (coq/Mem/PropList.v)",
+    "vnacal_parameter.c: _vnacal_alloc_parameter, _vnacal_free_parameter (scalar), _vnacal_teardown_parameter_collection; "
+    "vnacal_delete_parameter look-up (coq/Mem/ParamSlots.v)",
+    "vnacal_new_add_common.c: declared lengths of m_cell_map, s_cell_map, port_connected, m_row_given, m_column_given, "
+    "s_row_given, s_column_given against the loop bounds, calls without port map (coq/Mem/AddArrays.v)",
+]
+MODELLED_C12 = MODELLED[:2]
+
+T_TYPES = [0, 2, 4]      # T8, TE10, T16
+U_TYPES = [1, 3, 5]      # U8, UE10, U16
+
+
+def gen_tie_script(rng, n, faults, obj):
+    """ops on one list (obj "L") or one parameter table (obj "P"); indices from valid / boundary /
+    invalid domains (the two objects are never mixed in one script: the interposer counts live
+    blocks globally)"""
+    ops = ["-1 %s new" % obj]
+    llen = 0
+    pmax = 3
+    for _ in range(n):
+        k = -1
+        if faults and rng.random() < 0.6:
+            k = rng.choice([0, 0, 1, 1, 2, 3])
+        if obj == "L":
+            y = rng.random()
+            if y < 0.35:
+                ops.append("%d L append" % k)
+                llen += 1
+            elif y < 0.55:
+                i = rng.choice([0, llen, llen + 1, max(llen - 1, 0), llen + rng.randint(0, 12), -1, 7, 8, 15, 16])
+                ops.append("%d L set %d" % (k, i))
+                llen = max(llen, i + 1)
+            elif y < 0.7:
+                i = rng.choice([0, 1, llen, max(llen - 1, 0), llen + 3, -1])
+                ops.append("%d L insert %d" % (k, i))
+                llen += 1
+            elif y < 0.9:
+                i = rng.choice([0, 0, max(llen - 1, 0), llen, llen + 1, -1, 3])
+                ops.append("%d L delete %d" % (k, i))
+                llen = max(llen - 1, 0)
+            else:
+                ops.append("%d L get %d" % (k, rng.choice([0, llen - 1, llen, -1, 100])))
+        else:
+            if rng.random() < 0.6:
+                ops.append("%d P alloc" % k)
+                pmax += 1
+            else:
+                ops.append("%d P delete %d" % (k, rng.choice([3, 4, 5, pmax - 1, pmax, pmax + 1, 0, 2, -1, 7, 8, 100])))
+    ops.append("-1 %s free" % obj)
+    return ops
+
+
+def gen_add_cases(rng, n):
+    out = []
+    for _ in range(n):
+        if rng.random() < 0.5:
+            t = rng.choice(T_TYPES)
+            fr, fc = rng.choice([(1, 1), (2, 2), (1, 2), (2, 3), (3, 3), (1, 3)])
+        else:
+            t = rng.choice(U_TYPES)
+            fr, fc = rng.choice([(1, 1), (2, 2), (2, 1), (3, 2), (3, 3), (3, 1)])
+        fs = max(fr, fc)
+        br = rng.choice([fr, fr, fs, fr + 1, 0, -1, 1])
+        bc = rng.choice([fc, fc, fs, fc + 1, 0, -1, 1])
+        sr = rng.choice([fs, fs, fs, 0, -1, fs + 1, 1])
+        sc = rng.choice([fs, fs, fs, 0, -1, fs + 1, 1])
+        out.append("-1 A %d %d %d %d %d %d %d" % (t, fr, fc, br, bc, sr, sc))
+    return out
+
+
+# the refutation witnesses of the development (code as first read), replayed on the C side
+WITNESSES = {
+    "plist_delete_orig_oob_refuted": ["-1 L new"] + ["-1 L append"] * 8 + ["-1 L delete 0", "-1 L free"],
+    "plist_delete_orig_leak_refuted": ["-1 L new", "-1 L append", "-1 L append", "-1 L delete 0", "-1 L free"],
+    "pslots_orig_refuted": ["-1 P new"] + ["-1 P alloc"] * 5 + ["-1 P delete 7", "0 P alloc", "-1 P alloc", "-1 P free"],
+    "add_arrays_d14_refuted": ["-1 A 1 2 1 2 1 2 2"],
+    "add_arrays_d50_refuted": ["-1 A 0 2 2 2 2 0 0"],
+    "add_arrays_d48_refuted": ["-1 A 0 2 3 3 3 3 3"],
+}
+
+
+def run_c(ctx, exe, ops):
+    sp = os.path.join(ctx.tmp, "tie_%d.txt" % abs(hash(tuple(ops))))
+    with open(sp, "w") as f:
+        f.write("\n".join(ops) + "\n")
+    env = ctx.run_env(leak=False)
+    rc, out, err = vplib.sh([exe, sp], timeout=60, env=env)
+    os.unlink(sp)
+    return rc, out.split("\n"), err
+
+
+def run_model(ctx, drv, ops):
+    rc, out, err = vplib.sh([drv], input="\n".join(ops) + "\n", timeout=120)
+    return rc, out.split("\n"), err
+
+
+def compare(ctx, exe, drv, ops):
+    """None when model and C agree on every line, else (index, model line, C line, stderr)"""
+    rc, c, err = run_c(ctx, exe, ops)
+    rm, m, merr = run_model(ctx, drv, ops)
+    for i in range(len(ops)):
+        cl = c[i] if i < len(c) else "<C harness died rc=%d>" % rc
+        ml = m[i] if i < len(m) else "<model driver died>"
+        if cl != ml:
+            return (i, ml, cl, err)
+    return None
+
+
+def run_tie(ctx, exe_unused, prop):
+    broken = []
+    try:
+        exe = ctx.build_harness("mem_wb", san=True, wrap=True, exclude=("vnaproperty.c",))
+        drv = ctx.ocaml_driver("drv_mem")
+    except vplib.BuildError as e:
+        ctx.obligation("tie:mem:build", False, str(e)[:300])
+        return ["tie:mem:build"]
+    quick = ctx.tier != "thorough"
+    faults = (prop == "C12")
+    nscripts = (25 if quick else 300)
+    nsteps = 0
+    first = None
+    scripts = [("witness/" + k, v) for k, v in sorted(WITNESSES.items())]
+    for i in range(nscripts):
+        scripts.append(("tie/%d" % i, gen_tie_script(ctx.rng, 40 if quick else 120, faults, "L" if i % 2 == 0 else "P")))
+    if not faults:
+        scripts.append(("tie/add", gen_add_cases(ctx.rng, 120 if quick else 1500)))
+    for label, ops in scripts:
+        d = compare(ctx, exe, drv, ops)
+        nsteps += len(ops)
+        ctx.count(("tie", label), len(ops))
+        if d is not None and first is None:
+            def still(sub):
+                return compare(ctx, exe, drv, sub) is not None
+            small = mem_gen.ddmin(list(ops), still, budget=60)
+            d2 = compare(ctx, exe, drv, small) or d
+            first = (label, small, d2)
+    ctx.traces_validated += len(scripts)
+    ctx.extra["tie_steps_compared"] = nsteps
+    if first is None:
+        ctx.obligation("tie:mem:model_vs_C(%s)" % prop, True, "%d scripts, %d steps" % (len(scripts), nsteps))
+        ctx.sample({"tie_script": scripts[len(WITNESSES)][1][:8]})
+        return broken
+    label, small, (i, ml, cl, err) = first
+    ctx.obligation("tie:mem:model_vs_C(%s)" % prop, False, "%s line %d: model `%s` C `%s`" % (label, i, ml, cl))
+    opname = " ".join(small[i].split(" ")[1:3]) if i < len(small) else "?"
+    sig = mem_gen.fault_signature(1, err) if ("AddressSanitizer" in err or "runtime error" in err) else None
+    if sig is None:
+        sig = {"kind": "disagreement", "op": opname, "class": "%s|%s" % (ml.split(" ")[0], cl.split(" ")[0])}
+    else:
+        sig["op"] = opname
+    # the theorems of Properties_%s say the model never faults and frees everything: the property text sides with the model
+    ctx.violation(sig, "model and implementation disagree on `%s` (script %s): model says `%s`, C gives `%s`" % (small[i] if i < len(small) else "?", label, ml, cl),
+                  {"script": small, "line": i, "model": ml, "implementation": cl, "how": "harness/mem_wb.c vs ocaml/drv_mem", "stderr": err[-2000:]})
+    broken.append("tie:mem")
+    return broken
